@@ -3,6 +3,7 @@
 
 mod c01;
 mod c02;
+mod c02r;
 mod c03r;
 mod c05;
 mod c05r;
@@ -25,6 +26,7 @@ fn main() {
         "noop" => {}
         "c01" => c01::main(&args),
         "c02" => c02::main(&args),
+        "c02r" => c02r::main(&args),
         "c03r" => c03r::main(&args),
         "c05" => c05::main(&args),
         "c05r" => c05r::main(&args),
